@@ -358,18 +358,22 @@ func forEachMediaRange(header []byte, functor func([]byte)) {
 			// Complex case. We need to keep track of quotes and quoted-pairs (i.e.,  characters escaped with \ )
 		loop:
 			for n < len(header) {
+				if escaping {
+					// The previous byte was a backslash inside a quoted string: this byte is taken literally
+					escaping = false
+					n++
+					continue
+				}
 				switch header[n] {
 				case ',':
 					if quotes%2 == 0 {
 						break loop
 					}
 				case '"':
-					if !escaping {
-						quotes++
-					}
+					quotes++
 				case '\\':
 					if quotes%2 == 1 {
-						escaping = !escaping
+						escaping = true
 					}
 				}
 				n++
